@@ -43,6 +43,7 @@ def LIST(t):
 LINT = LIST(INT)
 SPECROW = 'SpecRow'
 FILE = 'File'        # a binary file object being read: the bytes not yet consumed
+MSG = 'TMsg'         # a message in a track as far as tracks.py looks at it: identity, is-end_of_track, time
 
 
 class Rec:
@@ -135,6 +136,8 @@ class FnTranslator:
                     if e.attr not in self.unit.fields:
                         raise Untranslatable(f'field {e.attr}')
                     return f'self.{e.attr}', self.unit.fields[e.attr]
+                if t == MSG and e.attr == 'time':
+                    return f'{base}.time', INT
             raise Untranslatable('attribute ' + ast.dump(e)[:80])
         if isinstance(e, ast.Subscript):
             if isinstance(e.value, ast.Name) and e.value.id in self.env and isinstance(self.env[e.value.id][1], Rec):
@@ -212,6 +215,13 @@ class FnTranslator:
             parts = [self.cond(v) for v in e.values]
             op = ' && ' if isinstance(e.op, ast.And) else ' || '
             return '(' + op.join(parts) + ')', BOOL
+        if isinstance(e, ast.Compare) and len(e.ops) == 1 and isinstance(e.left, ast.Attribute) and e.left.attr == 'type' \
+                and isinstance(e.left.value, ast.Name) and self.env.get(e.left.value.id, (None, None))[1] == MSG:
+            r = e.comparators[0]
+            if isinstance(r, ast.Constant) and r.value == 'end_of_track' and isinstance(e.ops[0], (ast.Eq, ast.NotEq)):
+                b = self.env[e.left.value.id][0]
+                return (f'{b}.eot' if isinstance(e.ops[0], ast.Eq) else f'(!{b}.eot)'), BOOL
+            raise Untranslatable('comparison of a message type')
         if isinstance(e, ast.Compare):
             items = [e.left] + list(e.comparators)
             vals = [self.expr(x) for x in items[:1]]
@@ -310,11 +320,24 @@ class FnTranslator:
                 if isinstance(t, tuple) and t[0] == 'List':
                     return a, t
                 raise Untranslatable(n + ' of ' + str(t))
+            if n == 'MetaMessage' and len(e.args) == 1 and isinstance(e.args[0], ast.Constant) and e.args[0].value == 'end_of_track' \
+                    and [k.arg for k in e.keywords] == ['time']:
+                tv, tt = self.expr(e.keywords[0].value)
+                if tt != INT:
+                    raise Untranslatable('time of the new end_of_track')
+                return f'(TMsg.mk 0 true {tv})', MSG
+            if n == 'MidiTrack' and len(e.args) == 1 and not e.keywords:
+                a, t = self.expr(e.args[0])
+                if t == LIST(MSG):
+                    return a, t
+                raise Untranslatable('MidiTrack of ' + str(t))
             if n == 'abs' and len(e.args) == 1:
                 a, t = self.expr(e.args[0])
                 return f'(Int.ofNat (Int.natAbs {a}))', INT
             u = self.tr.unit_by_pyname(self.unit.file, n)
             if u is not None:
+                if any(k.arg != 'skip_checks' for k in e.keywords):
+                    raise Untranslatable('keyword argument')
                 args = [self.expr(a) for a in e.args]
                 if u.cls is not None:
                     raise Untranslatable('call of a method as a function')
@@ -326,6 +349,15 @@ class FnTranslator:
                 a, t = self.expr(f.value)
                 if t == INT:
                     return f'(bitLength {a})', INT
+            if f.attr == 'copy' and not e.args:
+                a, t = self.expr(f.value)
+                kws = {k.arg: k.value for k in e.keywords}
+                if t == MSG and set(kws) <= {'time', 'skip_checks'} and 'time' in kws:
+                    # skip_checks only switches validation off; the copy is the message with the new time
+                    tv, tt = self.expr(kws['time'])
+                    if tt != INT:
+                        raise Untranslatable('copy(time=<non-int>)')
+                    return f'{{ {a} with time := {tv} }}', MSG
             raise Untranslatable('method call ' + f.attr)
         raise Untranslatable('call form')
 
@@ -354,10 +386,13 @@ class FnTranslator:
     def assign_target(self, tgt, val, vt, ind, out):
         if isinstance(tgt, ast.Name):
             n = tgt.id
-            if n in self.env and self.env[n][1] != vt:
+            if n in self.env and self.env[n][1] != vt and not (val == '[]' and isinstance(self.env[n][1], tuple)):
                 et = self.env[n][1]
                 if not (isinstance(et, tuple) and isinstance(vt, tuple) and et[0] == vt[0] == 'List'):
                     raise Untranslatable(f'variable {n} changes type {et} -> {vt}')
+            hint = getattr(self.unit, 'local_types', {}).get(n)
+            if hint is not None and vt == LIST(INT) and val == '[]':
+                vt = hint          # an empty list literal: its element type is declared in the unit configuration
             if n in self.muts:
                 out.append(f'{ind}{n} := {val}')
             else:
@@ -401,6 +436,8 @@ class FnTranslator:
                 # `return self.method(...)` of a method returning None
                 return 'self'
             return f'({v}, self)'
+        if getattr(self, 'is_gen', False):
+            return 'out__'
         if self.out_rec is not None:
             name, rec = self.out_rec
             vals = [f'{name}_{k}' for k in rec.fields]
@@ -501,6 +538,23 @@ class FnTranslator:
 
     def call_stmt(self, e, ind, allow_value=False):
         """an expression statement: a mutating method call"""
+        if isinstance(e, ast.Yield):
+            if e.value is None:
+                raise Untranslatable('bare yield')
+            v, t = self.expr(e.value)
+            if t != MSG:
+                raise Untranslatable('yield of ' + str(t))
+            return [f'{ind}out__ := out__ ++ [{v}]']
+        if isinstance(e, ast.Call) and isinstance(e.func, ast.Attribute) and e.func.attr == 'sort' and not e.args \
+                and [k.arg for k in e.keywords] == ['key']:
+            lam = e.keywords[0].value
+            cur, t = self.expr(e.func.value)
+            if t == LIST(MSG) and isinstance(lam, ast.Lambda) and len(lam.args.args) == 1 and isinstance(lam.body, ast.Attribute) \
+                    and lam.body.attr == 'time' and isinstance(lam.body.value, ast.Name) and lam.body.value.id == lam.args.args[0].arg:
+                out = []
+                self.assign_target(e.func.value, f'(sortByTime {cur})', t, ind, out)     # list.sort is stable
+                return out
+            raise Untranslatable('sort form')
         if isinstance(e, ast.Call) and isinstance(e.func, ast.Attribute):
             f = e.func
             # self.method(args)
@@ -726,6 +780,13 @@ class FnTranslator:
             for k in rec.fields:
                 body.append(f'  let mut {name}_{k} := {name}_{k}')
         stmts = fn.body
+        self.is_gen = any(isinstance(x, ast.Yield) for x in ast.walk(fn))
+        if self.is_gen:
+            if any(isinstance(x, ast.Return) for x in ast.walk(fn)):
+                raise Untranslatable('return inside a generator')
+            body.append('  let mut out__ : List TMsg := []')
+            self.muts.append('out__')
+            self.env['out__'] = ('out__', LIST(MSG))
         body.extend(self.block(stmts, '  '))
         if not self.terminates(stmts):
             # falling off the end returns None (the object state for methods)
@@ -881,6 +942,13 @@ def units():
     U.append(Unit(M, 'decode_variable_int', [('value', LINT)], INT))
     U.append(Unit('mido/midifiles/midifiles.py', 'read_variable_int', [('infile', FILE)], INT, fuel={'loop1': 'infile.length + 1'}))
     U.append(Unit(M, 'check_int', [('value', INT), ('low', INT), ('high', INT)], NONE))
+
+    TR = 'mido/midifiles/tracks.py'
+    U.append(Unit(TR, '_to_abstime', [('messages', LIST(MSG))], LIST(MSG)))
+    U.append(Unit(TR, '_to_reltime', [('messages', LIST(MSG))], LIST(MSG)))
+    U.append(Unit(TR, 'fix_end_of_track', [('messages', LIST(MSG))], LIST(MSG)))
+    U.append(Unit(TR, 'merge_tracks', [('tracks', LIST(LIST(MSG)))], LIST(MSG)))
+    U[-1].local_types = {'messages': LIST(MSG)}
 
     def meta(cls, attrs, dec_extra=None, checks=True):
         rec_in = Rec({a: INT for a in attrs})
